@@ -3,8 +3,9 @@ from __future__ import annotations
 
 
 def audit_generic(prog, rep, pid):
-    from .audit_impl import run_audit
+    from .audit_impl import mutation_audit, run_audit
     run_audit(prog, rep, pid)
+    mutation_audit(prog, rep, pid)
 
 
 def audit_c01(prog, rep):
